@@ -34,19 +34,21 @@ import (
 )
 
 type caseT struct {
-	LeafBy  string   `json:"leafBy"`
-	LeafW   [2]int   `json:"leafW"`
-	IntW    [2]int   `json:"intW"`
-	IntCA   bool     `json:"intCA"`
-	Bundled bool     `json:"bundled"`
-	Anchors []string `json:"anchors"`
-	Ts      string   `json:"ts"`
-	TsaBy   string   `json:"tsaBy"`
-	TsaW    [2]int   `json:"tsaW"`
-	Gen     int      `json:"gen"`
-	Now     int      `json:"now"`
-	NoChain bool     `json:"noChain"`
-	Verdict string   `json:"verdict"`
+	LeafBy   string   `json:"leafBy"`
+	LeafW    [2]int   `json:"leafW"`
+	IntW     [2]int   `json:"intW"`
+	IntCA    bool     `json:"intCA"`
+	Bundled  string   `json:"bundled"`
+	Prior    string   `json:"prior"`
+	TsaUsage string   `json:"tsaUsage"`
+	Anchors  []string `json:"anchors"`
+	Ts       string   `json:"ts"`
+	TsaBy    string   `json:"tsaBy"`
+	TsaW     [2]int   `json:"tsaW"`
+	Gen      int      `json:"gen"`
+	Now      int      `json:"now"`
+	NoChain  bool     `json:"noChain"`
+	Verdict  string   `json:"verdict"`
 }
 
 const unit = 30 * 24 * time.Hour
@@ -58,12 +60,15 @@ type pki struct {
 type built struct {
 	blob    []byte
 	anchors []*x509.Certificate
+	prior   []byte // (prior = sawInt) another signature, by another signer under the same intermediate, that bundles it
 }
 
 func (p *pki) build(c *caseT, n int) built {
 	now := time.Now().Truncate(time.Second)
 	at := func(g int) time.Time { return now.Add(time.Duration(g-c.Now) * unit) }
-	win := func(w [2]int) (time.Time, time.Time) { return at(w[0]).Add(-24 * time.Hour), at(w[1]).Add(24 * time.Hour) }
+	win := func(w [2]int) (time.Time, time.Time) {
+		return at(w[0]).Add(-24 * time.Hour), at(w[1]).Add(24 * time.Hour)
+	}
 	inb, ina := win(c.IntW)
 	// the intermediate: a CA issued by root, or - intCA false - the same without the CA constraint
 	inter := certs.New(certs.Opt{CN: "intermediate", CA: c.IntCA, NotBefore: inb, NotAfter: ina}, p.root)
@@ -81,7 +86,7 @@ func (p *pki) build(c *caseT, n int) built {
 		leaf = certs.New(lopt, nil)
 	}
 	chain := []*x509.Certificate{leaf.Cert}
-	if c.Bundled {
+	if c.Bundled == "sig" {
 		chain = append(chain, inter.Cert)
 	}
 	sb := pkcs7.NewBuilder(leaf.Key, chain, crypto.SHA256)
@@ -98,14 +103,22 @@ func (p *pki) build(c *caseT, n int) built {
 		if c.TsaBy == "stranger" {
 			parent = p.stranger
 		}
-		tsa := certs.New(certs.Opt{CN: "time-stamping authority", EKU: []x509.ExtKeyUsage{x509.ExtKeyUsageTimeStamping}, NotBefore: tnb, NotAfter: tna}, parent)
+		usage := x509.ExtKeyUsageTimeStamping
+		if c.TsaUsage == "code" {
+			usage = x509.ExtKeyUsageCodeSigning
+		}
+		tsa := certs.New(certs.Opt{CN: "time-stamping authority", EKU: []x509.ExtKeyUsage{usage}, NotBefore: tnb, NotAfter: tna}, parent)
 		value := psd.Content.SignerInfos[0].EncryptedDigest
 		if c.Ts == "foreign" {
 			value = []byte("the signature value of some other signature")
 		}
 		d := sha256.Sum256(value)
-		tok := cmsx.Token(tsa.Key, tsa.Cert, cmsx.TSAOpts{GenTime: at(c.Gen), Nonce: big.NewInt(7), Imprint: d[:],
-			ImprintAlg: pkix.AlgorithmIdentifier{Algorithm: cmsx.OidSHA256, Parameters: asn1.RawValue{Tag: 5}}})
+		topts := cmsx.TSAOpts{GenTime: at(c.Gen), Nonce: big.NewInt(7), Imprint: d[:],
+			ImprintAlg: pkix.AlgorithmIdentifier{Algorithm: cmsx.OidSHA256, Parameters: asn1.RawValue{Tag: 5}}}
+		if c.Bundled == "token" {
+			topts.ExtraCerts = []*x509.Certificate{inter.Cert} // the signer's intermediate travels inside the token only
+		}
+		tok := cmsx.Token(tsa.Key, tsa.Cert, topts)
 		parsed, err := pkcs7.Unmarshal(tok)
 		if err != nil {
 			panic(err)
@@ -131,11 +144,26 @@ func (p *pki) build(c *caseT, n int) built {
 			anchors = append(anchors, leaf.Cert)
 		}
 	}
-	return built{blob, anchors}
+	out := built{blob: blob, anchors: anchors}
+	if c.Prior == "sawInt" {
+		other := certs.New(certs.Opt{CN: fmt.Sprintf("colleague %d", n), EKU: []x509.ExtKeyUsage{x509.ExtKeyUsageCodeSigning}}, inter)
+		ob := pkcs7.NewBuilder(other.Key, []*x509.Certificate{other.Cert, inter.Cert}, crypto.SHA256)
+		ob.SetContentData([]byte("an earlier file"))
+		opsd, err := ob.Sign()
+		if err != nil {
+			panic(err)
+		}
+		out.prior, _ = opsd.Marshal()
+	}
+	return out
 }
 
 // library path, as cmdline/verify verifyOne takes it for a case with trust judged
 func libVerdict(b built) (string, error) {
+	if b.prior != nil {
+		// an earlier file of the same run: same anchors, its own verdict does not matter here
+		libVerdict(built{blob: b.prior, anchors: b.anchors})
+	}
 	back, err := pkcs7.Unmarshal(b.blob)
 	if err != nil {
 		panic(err)
@@ -173,17 +201,29 @@ func cliVerdict(relic, dir string, b built, c *caseT, n int) (string, string) {
 	if c.NoChain {
 		args = append(args, "--no-trust-chain")
 	}
+	if b.prior != nil {
+		// `relic verify a.p7s b.p7s`: one verdict line per file
+		priorPath := filepath.Join(dir, fmt.Sprintf("case-%d-earlier.p7s", n))
+		os.WriteFile(priorPath, b.prior, 0600)
+		defer os.Remove(priorPath)
+		args = append(args, priorPath)
+	}
 	args = append(args, sigPath)
 	cmd := exec.Command(relic, args...)
 	cmd.Env = append(os.Environ(), "HOME="+dir)
 	out, err := cmd.CombinedOutput()
-	if err == nil {
-		return "accept", ""
+	if ee, ok := err.(*exec.ExitError); err != nil && (!ok || ee.ExitCode() != 1) {
+		return "died", fmt.Sprintf("%v: %s", err, out)
 	}
-	if ee, ok := err.(*exec.ExitError); ok && ee.ExitCode() == 1 {
+	// one line per file: "<path>: OK - ..." or "<path> ERROR: ..."; the exit status is 1 if any file failed
+	okLine, errLine := bytes.Contains(out, []byte(sigPath+": OK")), bytes.Contains(out, []byte(sigPath+" ERROR"))
+	switch {
+	case okLine && !errLine && (err == nil || b.prior != nil):
+		return "accept", ""
+	case errLine && !okLine && err != nil:
 		return "reject", string(out)
 	}
-	return "died", fmt.Sprintf("%v: %s", err, out)
+	return "died", fmt.Sprintf("unexpected output (%v): %s", err, out)
 }
 
 // Replay: vh replay-trust <cases.jsonl> <relic binary or ""> <cli sample: every k-th case, 0 = none> <seed>
